@@ -85,9 +85,23 @@ def minWith (a b : Rat) : Rat := if b < a then b else a
 def maxWithNat (a b : Nat) : Nat := if b > a then b else a
 def minWithNat (a b : Nat) : Nat := if b < a then b else a
 
+/-- `Number::abs` on an exact value -/
+def ratAbs (q : Rat) : Rat := if q < 0 then -q else q
+
 /-- `iter.map(f)` with a closure `f` that mutates a captured cell: a state-passing map -/
 def mapSt {σ α β : Type} (f : σ → α → σ × β) (s : σ) : List α → List β
   | [] => []
   | x :: xs => let p := f s x; p.2 :: mapSt f p.1 xs
+
+/-- `iter.filter_map(f)` with a closure `f` that mutates a captured cell -/
+def filterMapSt {σ α β : Type} (f : σ → α → σ × Option β) (s : σ) : List α → List β
+  | [] => []
+  | x :: xs =>
+    match (f s x).2 with
+    | some b => b :: filterMapSt f (f s x).1 xs
+    | none => filterMapSt f (f s x).1 xs
+
+/-- `iter.enumerate()`: `(index, item)` pairs from 0 -/
+def enumerate {α : Type} (l : List α) : List (Nat × α) := (List.range l.length).zip l
 
 end Tv.Gen
